@@ -260,7 +260,7 @@ fn child(case: &str) -> ! {
             Arp::new(),
             server,
         ]];
-        let deadline = if paused { Duration::from_secs(30) } else { Duration::from_secs(2) };
+        let deadline = if paused { Duration::from_secs(30) } else { Duration::from_secs(2) * elvis_verif_harness::slow_factor() };
         for c in 0..cfg.n {
             let delay = Duration::from_micros(if cfg.wmax_us > 0 { mix(cfg.seed, 1000 + c as u64) % (cfg.wmax_us + 1) } else { 0 });
             machines.push(new_machine_arc![
@@ -285,7 +285,7 @@ fn child(case: &str) -> ! {
         let how = tokio::select! {
             _ = sim => unreachable!(),
             _ = done.notified() => "DONE".to_string(),
-            _ = tokio::time::sleep(if paused { Duration::from_secs(3600) } else { Duration::from_secs(10) }) => "HANG".to_string(),
+            _ = tokio::time::sleep(if paused { Duration::from_secs(3600) } else { Duration::from_secs(10) * elvis_verif_harness::slow_factor() }) => "HANG".to_string(),
         };
         // late duplicates and delayed frames arrive here
         tokio::time::sleep(if paused { Duration::from_secs(5) } else { Duration::from_millis(40) }).await;
@@ -657,6 +657,10 @@ impl Family for C15Dhcp {
             "F {} N {} P {} D {} {} {} {} {} {} W {} H {}",
             flavor, n, pool, dupmax, duppct, droppct, delaypct, maxdelay, rng.below(1 << 30), w, hostile as u8
         )
+    }
+
+    fn realtime(case: &str) -> bool {
+        parse(case).flavor != 0
     }
 
     fn run(case: &str) -> Outcome {
